@@ -483,3 +483,73 @@ func TestVerifC11Active(t *testing.T) {
 	m.Rule = "the real updateActiveNodes with host h2 marked for recovery x {alive and replicating, dead, dead with a health record, dubious ping} x in / not in the old list x failure clock none / 5 s / 31 s x semi-sync on / off x 2-4 hosts (complete grid); published list checked by the monitor and the run replayed against the model"
 	o.WriteMeta("c11active", m)
 }
+
+// TestVerifC11Stale: "a host found claiming to be master beside the recorded one is marked for recovery" - also when turning it
+// into a replica fails half way.  The real repairCluster over a cluster with a stale master (no replication channel, not the
+// recorded master); each statement of its repair fails once in turn; after the passes the host must carry the mark (only its
+// own check may take it away, and that check sends a diverged host to resetup).
+func TestVerifC11Stale(t *testing.T) {
+	o := vk.Open()
+	m := vk.NewMeta()
+	run := func(in c10In) (out c10Out) {
+		synctest.Test(t, func(t *testing.T) { out = c10Run(in) })
+		return
+	}
+	check := func(in c10In, out c10Out, stale []string) {
+		m.Evaluations++
+		for _, p := range out.Passes {
+			if p.Panic != "" {
+				return
+			}
+		}
+		for _, h := range stale {
+			if !out.Recovery[h] {
+				m.Violation("a host found claiming to be master beside the recorded one is marked for recovery", map[string]any{"stale": in},
+					fmt.Sprintf("%s is not marked after %d passes (failing call: %+v)", h, len(out.Passes), in.Fault))
+			}
+		}
+	}
+	var rp struct {
+		Stale *c10In `json:"stale"`
+	}
+	if vk.ReplayInput(&rp) && rp.Stale != nil {
+		var stale []string
+		for i, c := range rp.Stale.Nodes {
+			if i > 0 && c.Source == "" && !c.Down && !c.Unregistered && c.Cascade == "" {
+				stale = append(stale, fmt.Sprintf("h%d", i+1))
+			}
+		}
+		check(*rp.Stale, run(*rp.Stale), stale)
+		o.WriteMeta("c11stale", m)
+		return
+	}
+	for _, n := range []int{3, 4} {
+		for _, extra := range []string{"", "1-7"} {
+			for _, ro := range []bool{false, true} {
+				in := c10In{Passes: 3, Gap: 5, MaxAttempts: 3}
+				in.Nodes = append(in.Nodes, c10Node{Source: "", SemiSync: "none", Exec: "1-100"})
+				in.Nodes = append(in.Nodes, c10Node{RO: ro, Source: "", SemiSync: "none", Exec: "1-100", Extra: extra}) // h2: the stale master
+				for i := 3; i <= n; i++ {
+					in.Nodes = append(in.Nodes, c10Node{RO: true, Source: "h1", Threads: "running", SemiSync: "none", Exec: "1-100"})
+				}
+				base := run(in)
+				check(in, base, []string{"h2"})
+				m.Count("stale_master_scenarios")
+				// every statement and coordination call of the first pass that concerns h2 fails once
+				seen := map[string]int{}
+				for _, e := range base.Passes[0].Trans {
+					if e.Host != "h2" || e.Kind == "SRefused" {
+						continue
+					}
+					fin := in
+					fin.Fault = &vk.Fault{Host: "h2", Kind: e.Kind, Nth: seen[e.Kind], Action: "err:1872"}
+					seen[e.Kind]++
+					check(fin, run(fin), []string{"h2"})
+					m.Count("with_failing_" + e.Kind)
+				}
+			}
+		}
+	}
+	m.Rule = "the real repairCluster (3 passes) over 3-4 node clusters with a stale master h2 (writable or not, with or without transactions of its own); every statement sent to h2 in the first pass fails once in turn; the mark must be there afterwards"
+	o.WriteMeta("c11stale", m)
+}
